@@ -18,7 +18,7 @@ VALID = ["https://example.com/", "https://example.com", "HTTPS://EXAMPLE.COM/Pat
 # long URLs: validity does not depend on length (boundaries of typical caps)
 VALID += ["https://example.com/" + "p" * (n - 20) for n in (255, 256, 1023, 1024, 2047, 2048, 2049, 4095, 4096, 4097, 8192, 65535, 65536, 65537, 100000)]
 VALID += ["https://example.com/?" + "q=1&" * 600, "HTTPS://EXAMPLE.com/" + "P" * 3000]
-INVALID = ["", "example.com", "/relative/path", "//example.com/x", "?q=1", "#frag", "https://", "http://[::1", "https://exa mple.com/",
+INVALID = ["%s%s/relative no scheme" % ("a" * pad, "\u00e9" * 70) for pad in range(0, 4)] + ["%sexa mple\U0001F600\U0001F600%s" % ("x" * pad, "\u65e5" * 60) for pad in (27, 28, 29, 30, 59, 60, 61, 62)] + ["", "example.com", "/relative/path", "//example.com/x", "?q=1", "#frag", "https://", "http://[::1", "https://exa mple.com/",
            "1http://x/", "://x", "http://:80/", "https://example.com:99999/", "garbage \x00\x01", "https://[zz]/", "http//x", ":"]
 
 
